@@ -143,4 +143,114 @@ theorem redo_replace (l : L) (v : Int) (hl : l.mergeable = true) (hw : l.writes 
       exact ih (apply r s) (fun x hx => hwf x (List.mem_cons_of_mem _ hx)) hrest
         (fun x hx => hother x (List.mem_cons_of_mem _ hx))
 
+/-- the guard: logs are well formed, and no non-mergeable log writes a cell that is the key of a mergeable log -/
+def Guard (logs : List L) : Prop :=
+  (∀ l ∈ logs, WFL l) ∧
+  (∀ l ∈ logs, l.mergeable = false → ∀ m ∈ logs, m.mergeable = true → ¬ writesCell l m.key)
+
+/-- invariant of the result list while merging `logs` -/
+def ResInv (logs res : List L) : Prop :=
+  ∀ r ∈ res, WFL r ∧ (r.mergeable = false → r ∈ logs)
+
+theorem apply_single (l : L) (v : Int) (hw : l.writes = [(l.key, v)]) (s : Nat → Int) :
+    apply l s = upd s l.key v := by
+  unfold apply; simp [hw]
+
+/-- one iteration of merge = one Redo on the replayed state -/
+theorem mergeStep_redo (logs res : List L) (l : L) (hg : Guard logs) (hl : l ∈ logs) (hr : ResInv logs res)
+    (s : Nat → Int) : redo (mergeStep res l) s = apply l (redo res s) ∧ ResInv logs (mergeStep res l) := by
+  unfold mergeStep
+  by_cases hc : (l.mergeable && res.any (sameKey l)) = true
+  · simp only [hc, if_true]
+    have hm : l.mergeable = true ∧ res.any (sameKey l) = true := by simpa using hc
+    obtain ⟨v, hv⟩ := hg.1 l hl hm.1
+    constructor
+    · rw [redo_replace l v hm.1 hv res s (fun r h => (hr r h).1) hm.2 ?_, apply_single l v hv]
+      intro r hrm hsk hwc
+      by_cases hmr : r.mergeable = true
+      · -- another mergeable key: writes only its own cell
+        obtain ⟨v', hv'⟩ := (hr r hrm).1 hmr
+        obtain ⟨w, hw, he⟩ := hwc
+        rw [hv'] at hw
+        simp only [List.mem_singleton] at hw
+        subst hw
+        simp only at he
+        unfold sameKey at hsk
+        simp [hmr, he] at hsk
+      · have hmr' : r.mergeable = false := by simpa using hmr
+        exact hg.2 r ((hr r hrm).2 hmr') hmr' l hl hm.1 hwc
+    · intro r hrm
+      simp only [List.mem_map] at hrm
+      obtain ⟨r0, hr0, he⟩ := hrm
+      by_cases hk : sameKey l r0 = true
+      · simp only [hk, if_true] at he
+        subst he
+        have hk' : r0.mergeable = true ∧ r0.key = l.key := by
+          unfold sameKey at hk; simpa using hk
+        constructor
+        · intro _; exact ⟨v, by simp [hv, hk'.2]⟩
+        · intro h; simp [hk'.1] at h
+      · have hk' : sameKey l r0 = false := by simpa using hk
+        simp only [hk', Bool.false_eq_true, if_false] at he
+        subst he
+        exact hr r0 hr0
+  · have hc' : (l.mergeable && res.any (sameKey l)) = false := by simpa using hc
+    simp only [hc', Bool.false_eq_true, if_false]
+    constructor
+    · rw [redo_append]; rfl
+    · intro r hrm
+      rcases List.mem_append.mp hrm with h | h
+      · exact hr r h
+      · simp only [List.mem_singleton] at h
+        subst h
+        exact ⟨hg.1 r hl, fun _ => hl⟩
+
+theorem merge_fold (logs : List L) (hg : Guard logs) : ∀ (pre res : List L) (s : Nat → Int),
+    (∀ l ∈ pre, l ∈ logs) → ResInv logs res →
+    redo (pre.foldl mergeStep res) s = redo pre (redo res s) := by
+  intro pre
+  induction pre with
+  | nil => intro res s _ _; rfl
+  | cons l pre ih =>
+    intro res s hp hr
+    simp only [List.foldl_cons]
+    obtain ⟨h1, h2⟩ := mergeStep_redo logs res l hg (hp l List.mem_cons_self) hr s
+    rw [ih (mergeStep res l) s (fun x hx => hp x (List.mem_cons_of_mem _ hx)) h2, h1]
+    rfl
+
+/-- **merge_redo_eq_partial**: for every log list satisfying the guard and every parent state, replaying the
+    MERGED (published) logs gives exactly the state that replaying the logs in execution order gives. -/
+theorem merge_redo_eq_partial (logs : List L) (hg : Guard logs) (s : Nat → Int) :
+    redo (merge logs) s = redo logs s := by
+  unfold merge
+  rw [merge_fold logs hg logs [] s (fun _ h => h) (by intro r h; cases h)]
+  rfl
+
+/-! ### the guard is needed: the suicide / balance witness -/
+
+def cBal : Nat := 1
+/-- BalanceLog(NewVal 5) · SuicideLog · BalanceLog(NewVal 7): executed balance 7 -/
+def wLogs : List L :=
+  [{ key := cBal, mergeable := true, writes := [(cBal, 5)] },
+   { key := 16, mergeable := false, writes := [(cBal, 0), (2, 0)] },
+   { key := cBal, mergeable := true, writes := [(cBal, 7)] }]
+
+theorem merge_redo_refuted :
+    redo wLogs (fun _ => 0) cBal = 7 ∧ redo (merge wLogs) (fun _ => 0) cBal = 0 := by
+  decide
+
+/-- non-vacuity: a list with two balance logs around a storage log satisfies the guard -/
+example : Guard [{ key := 1, mergeable := true, writes := [(1, 5)] },
+                 { key := 40, mergeable := false, writes := [(100, 3)] },
+                 { key := 1, mergeable := true, writes := [(1, 7)] }] := by
+  constructor
+  · intro l hl
+    simp only [List.mem_cons, List.mem_singleton, List.not_mem_nil, or_false] at hl
+    rcases hl with rfl | rfl | rfl <;> intro h <;> first | exact ⟨_, rfl⟩ | cases h
+  · intro l hl hm m hmm hmg hw
+    simp only [List.mem_cons, List.mem_singleton, List.not_mem_nil, or_false] at hl hmm
+    rcases hl with rfl | rfl | rfl <;> simp at hm
+    rcases hmm with rfl | rfl | rfl <;> simp at hmg <;>
+      (obtain ⟨w, hw1, hw2⟩ := hw; simp at hw1; subst hw1; simp at hw2)
+
 end LemoProofs.C07Merge
